@@ -142,6 +142,16 @@ func runLeakCase(c *Case) string {
 	var sub ro.Subscription
 	if op.src {
 		sub = op.sub(probe.Observable(), rec)
+		// operators that subscribe their source from a goroutine of their own (ToChannel sleeps 1 ms
+		// first): wait until the probe has been subscribed before playing the script
+		for deadline := time.Now().Add(2 * time.Second); time.Now().Before(deadline); time.Sleep(200 * time.Microsecond) {
+			probe.mu.Lock()
+			n := probe.subs
+			probe.mu.Unlock()
+			if n > 0 {
+				break
+			}
+		}
 		for i := range script {
 			probe.push(i)
 			time.Sleep(300 * time.Microsecond)
